@@ -132,6 +132,20 @@ Theorem C08_cache_sound_inv_rekey_by_id : forall frepr loads_b f s i new f' s' r
 Proof. exact inv_rekey_id. Qed.
 Print Assumptions C08_cache_sound_inv_rekey_by_id.
 
+(* update_statepoint through a handle reached BY ID (or by iteration) keeps the caches sound as well: it works on a
+   copy (self.statepoint()), never on the dict the session cache holds under the old id — whether the re-key
+   succeeds, is rejected (DestinationExistsError) or the old id is created again later by another session *)
+Theorem C08_cache_sound_inv_update_statepoint_by_id : forall frepr loads_b f s i upd f' s' r,
+  Inv frepr f s -> op_upd_id frepr loads_b f s i upd = (f', s', r) -> Inv frepr f' s'.
+Proof. exact inv_upd_id. Qed.
+Print Assumptions C08_cache_sound_inv_update_statepoint_by_id.
+
+(* a change of the workspace made by ANOTHER session (init / remove) keeps Inv for the session that lives on *)
+Theorem C08_cache_sound_inv_foreign_init : forall frepr loads_b f s sp f' s' r,
+  Inv frepr f s -> op_init frepr loads_b f fresh sp = (f', s', r) -> Inv frepr f' s.
+Proof. exact inv_foreign_init. Qed.
+Print Assumptions C08_cache_sound_inv_foreign_init.
+
 (* ---------------------------------------------------------------- update_cache_exact
    After update_cache() returns, the cache file lists exactly the ids of the workspace (exact: keys distinct,
    key set = directory listing, every value = the workspace state point up to key order), the workspace is
